@@ -271,23 +271,46 @@ def run(case, out):
         if got not in cands:
             out.fail("c14.multikey_sort", {"got": got[:12], "expected_one_of": [c[:12] for c in cands[:2]]})
             return
-        # --- the score as a sort key next to field keys: (tag, best score first) and (best score first, nm)
+        # --- the score as a sort key next to field keys: (tag, best score first) and (best score first, tag reversed).
+        # Scores that differ only in the last bits (the sorted search adds the clauses up in another order than the
+        # scored one) count as ties, and the order inside a tie is not asserted.
         score_of = dict((h["k"], h.score) for h in full)
         byk = dict((d["k"], d) for d in docs)
-        got = keys_of(s.search(q, limit=None, sortedby=sorting.MultiFacet([sorting.FieldFacet("tag"), sorting.ScoreFacet()])))
-        exp = sorted(mkeys, key=lambda k: (byk[k]["tag"].encode(), -score_of[k], docnum[k]))
-        if got != exp:
-            out.fail("c14.multikey_sort_with_score:tag_then_score",
-                     {"got": [(k, byk[k]["tag"], score_of.get(k)) for k in got[:10]],
-                      "expected": [(k, byk[k]["tag"], score_of[k]) for k in exp[:10]], "q": qname})
-            return
-        got = keys_of(s.search(q, limit=None, sortedby=sorting.MultiFacet([sorting.ScoreFacet(), sorting.FieldFacet("tag", reverse=True)])))
-        exp = sorted(mkeys, key=lambda k: (-score_of[k], tuple(-b for b in byk[k]["tag"].encode()) + (1,), docnum[k]))
-        if got != exp:
-            out.fail("c14.multikey_sort_with_score:score_then_tag",
-                     {"got": [(k, byk[k]["tag"], score_of.get(k)) for k in got[:10]],
-                      "expected": [(k, byk[k]["tag"], score_of[k]) for k in exp[:10]], "q": qname})
-            return
+
+        def same(x, y):
+            return abs(x - y) <= 1e-9 * max(1.0, abs(x), abs(y))
+
+        def ordered(keys, keyfn):
+            """keyfn(k) -> tuple of components; floats compared with tolerance"""
+            for a_, b_ in zip(keys, keys[1:]):
+                for x, y in zip(keyfn(a_), keyfn(b_)):
+                    if isinstance(x, float):
+                        if same(x, y):
+                            break   # a tie up to rounding: the keys after it decide nothing that can be asserted
+                        if x < y:
+                            break
+                        return (a_, b_)
+                    if x == y:
+                        continue
+                    if x < y:
+                        break
+                    return (a_, b_)
+            return None
+
+        for name, facets, keyfn in (
+                ("tag_then_score", [sorting.FieldFacet("tag"), sorting.ScoreFacet()],
+                 lambda k: (byk[k]["tag"].encode(), -score_of[k])),
+                ("score_then_tag", [sorting.ScoreFacet(), sorting.FieldFacet("tag", reverse=True)],
+                 lambda k: (-score_of[k], tuple(-b for b in byk[k]["tag"].encode()) + (1,)))):
+            got = keys_of(s.search(q, limit=None, sortedby=sorting.MultiFacet(facets)))
+            if sorted(got) != sorted(mkeys):
+                out.fail("c14.multikey_sort_with_score:%s:members" % name, {"got": len(got), "expected": len(mkeys)})
+                return
+            wrong = ordered(got, keyfn)
+            if wrong:
+                out.fail("c14.multikey_sort_with_score:%s" % name,
+                         {"out_of_order": [(k, byk[k]["tag"], score_of[k]) for k in wrong], "q": qname})
+                return
         out.label("score_ties" if len(set(score_of.values())) < len(score_of) else "scores_distinct")
         # --- grouping
         r = s.search(q, limit=None, groupedby={"tag": sorting.FieldFacet("tag"), "tx": sorting.FieldFacet("tx"),
